@@ -264,12 +264,17 @@ def _c18_plan(prop, tier):
             "sequentially and under seeded multi-worker schedules (safe mode in 30 % of the runs). Oracle by execution in a "
             "fork: original and final text of each client are executed as two modules of one process (imported objects are "
             "shared, identity is literal); the objects its functions return and its module level variables hold must be the "
-            "very same objects, definitions matched by position; libraries not passed to the tool must be unchanged. "
+            "very same objects, definitions matched by position; libraries not passed to the tool must be unchanged. In a "
+            "third of the runs the same process first formats another project directory whose modules have the same names "
+            "but another layout. E2 two-trees: histories of format_code / import rules over clients of two static project "
+            "trees with equal module names and swapped define / re-export roles inside one long-lived process, each "
+            "operation compared with a fresh fork in the same tree (nothing of an earlier tree may leak). "
             "distinct = (tree, reads-from map); non-trivial = a task with a cross-file read (tracing opened an imported "
             "module) or a multi-worker schedule."
         ),
         "batches": [
             {"engine": "e3_pool", "label": "pool-imports", "n": 280 if q else 8000, "kwargs": {"profile": "imports", "schedules": 2}, "timeout": 900.0},
+            {"engine": "e2_history", "label": "two-trees", "n": 96 if q else 6000, "kwargs": {"trees": True}, "timeout": 600.0},
         ],
         "probes": ["imports.clients_checked", "imports.clients_changed", "imports.import_statements_changed"],
         "assumptions": [
